@@ -9,6 +9,15 @@ NOTE = ("Trusted: Lean 4.33 kernel (axioms propext, Classical.choice, Quot.sound
         "differential correspondence streams named here (agreement on generated inputs, not a proof of the tie). ")
 
 CLAIMS = {
+ 'C17': dict(
+   text="Lean theorem diatonic_chords_playable_in_key, decided by kernel evaluation THROUGH THE COMPOSED MODEL (lexer, parser, classifier, syllable converter "
+        "in key K, dictionary, Key.Apply in key K) for all 28 keys x 14 listed chords: each string lexes and parses as one chord written on the i-th scale "
+        "note, converts to degree number i+1 without bass, carries the symbol that stacking thirds on the mode's step pattern prescribes (spec, not crd's "
+        "name tables; shown equal to maj min min maj maj min dim / maj7 m7 m7 maj7 7 m7 m7b5 and the natural-minor rotation), is in the dictionary, and "
+        "sounds 4 (5) notes whose pitch classes belong to the key's scale. Tie: all 42 spellings through `crd info key describe`, and each of the 392 listed "
+        "strings through `crd text conv syllable --key K | crd write --key K` on the real binary with byte comparison of the MIDI output (every run).",
+   note="The SMF bytes of the real pipeline are compared with the model's encoder output; gomidi is modelled, not verified.",
+   technique="Lean 4 proof: kernel decide through the composed executable model, split in four parallel modules", ref="6 (C17)"),
  'C03': dict(
    text="Lean theorems: for all 21x21 written-note pairs and both search orders the interval search returns exactly the degree whose number is the "
         "letter distance and whose textbook size is the pitch distance BY LETTER (so reference + degree is the written note), fails only when no "
